@@ -118,7 +118,7 @@ package gorm
 //@   modifies stmt.Clauses[*], stmt.SQL, stmt.Vars, stmt.Dest, stmt.DB.Error
 
 //@ func (*Statement).BuildCondition
-//@   trusted reflection-driven conversion of condition forms; frame assumed (see finding F7 for the *DB argument case)
+//@   tags C06
 //@   modifies stmt.DB.Error
 //@   ensures len(result) == 0 || fresh(result)
 
